@@ -107,7 +107,8 @@ def unhex(x):
 def run(envname, body, cwd=None, timeout=300):
     """Run `body` (Python source, indented by run()) in a child interpreter
     under ENVS[envname].  Returns {"ok", "obs", "exc", "msg", "rc", "err"};
-    "report" is False if the child died before reporting."""
+    "report" is False if the child died before reporting; "out" is the tail
+    of what the operation wrote to stdout (None unless stdout is a pipe)."""
     spec = ENVS[envname]
     env = {k: v for k, v in os.environ.items()
            if k in ("PATH", "HOME", "USER", "TMPDIR", "LANG", "LC_ALL",
@@ -160,6 +161,7 @@ def run(envname, body, cwd=None, timeout=300):
             chunks.append(chunk)
 
     th = None
+    sout = None
     try:
         p = subprocess.Popen([PY] + list(spec.get("flags", ())) + ["-c", code],
                              env=env, cwd=cwd, stdout=out,
@@ -172,10 +174,13 @@ def run(envname, body, cwd=None, timeout=300):
         try:
             _o, e_ = p.communicate(timeout=timeout)
             rc, err = p.returncode, e_.decode("utf-8", "replace")[-600:]
+            # what the operation wrote to its stdout (only when it is a pipe)
+            sout = _o.decode("utf-8", "replace")[-4000:] \
+                if _o is not None else None
         except subprocess.TimeoutExpired:
             p.kill()
             p.communicate()
-            rc, err = -999, "timeout"
+            rc, err, sout = -999, "timeout", None
     finally:
         if w is not None:
             os.close(w)
@@ -193,5 +198,5 @@ def run(envname, body, cwd=None, timeout=300):
             reported = True
         except ValueError:
             pass
-    rep.update({"rc": rc, "err": err, "report": reported})
+    rep.update({"rc": rc, "err": err, "report": reported, "out": sout})
     return rep
